@@ -463,7 +463,7 @@ class Evaluator:
                     continue  # an expression statement the rule's model knows (e.g. a warning): evaluated for effect only
             if isinstance(st, ast.For) and not st.orelse:
                 it = self.ev(st.iter, env)
-                if not isinstance(it, (list, tuple, range, str, dict, set, frozenset)) and not hasattr(it, "__next__"):
+                if not isinstance(it, (list, tuple, range, str, dict, set, frozenset)) and not hasattr(it, "__next__") and type(it).__name__ != "Arr":
                     raise Unknown("loop over an untracked iterable")
                 n_iter = 0
                 for item in list(it):
@@ -495,6 +495,19 @@ class Evaluator:
                     getattr(recv, st.value.func.attr)(**kwargs)
                 except Exception as e:
                     raise Unknown(f"{st.value.func.attr}: {e}")
+                continue
+            if isinstance(st, ast.While) and not st.orelse:
+                n_iter = 0
+                while self.ev(st.test, env):
+                    n_iter += 1
+                    if n_iter > 20_000:
+                        raise Unknown("loop budget exceeded")
+                    try:
+                        self._exec(st.body, env)
+                    except Evaluator._Continue:
+                        continue
+                    except Evaluator._Break:
+                        break
                 continue
             if isinstance(st, ast.Raise):
                 nm = None
